@@ -15,6 +15,11 @@ package main
 //	fin t ok|fail|hang          after mwait, per task of TasksManager.Names(): Task.Wait()
 //	                            returned and Task.Errors() is empty / not empty / Wait hung
 //	root ok|err                 Err() of the root scope at the very end
+//	hacc h | hrej h             the try goroutine's Runner.Run for handler task h returned nil / an error
+//	                            (seen by a recording wrapper around the PipRunner service)
+//	stall h                     the steering controller (steerCtl) held a handler of a try block at its
+//	                            first command and waited generously for the fate of handler h (its first
+//	                            command, its close, a refused handler submission of that try): nothing happened
 //	panic                       a panic was caught (callback, listener or main thread)
 //
 // Sequence numbers are the order in which the events acquired the recorder's mutex.
@@ -43,6 +48,7 @@ import (
 	"github.com/goatcms/goatcore/app/modules/pipelinem/pipcommands/pipc"
 	"github.com/goatcms/goatcore/app/modules/pipelinem/pipservices"
 	"github.com/goatcms/goatcore/app/modules/pipelinem/pipservices/namespaces"
+	"github.com/goatcms/goatcore/app/modules/pipelinem/pipservices/runner"
 	"github.com/goatcms/goatcore/app/modules/terminalm"
 	"github.com/goatcms/goatcore/app/terminal"
 )
@@ -53,6 +59,8 @@ const (
 	gateWatchdog  = 20 * time.Second // a gated probe gives up waiting for the controller (controller bug / dead case)
 	mwaitWatchdog = 20 * time.Second // TasksManager.Wait must return once every gate was released
 	finWatchdog   = 2 * time.Second  // Task.Wait of a task of a manager whose Wait already returned
+	stallWatchdog = 10 * time.Second // the steering controller waits this long for the fate of the awaited handler
+	stallShort    = 3 * time.Second  // … after the first stall seen by this worker process (see stallWait)
 )
 
 // recorder is the event list of one case.
@@ -190,12 +198,169 @@ func (g *gateCtl) loop() {
 	}
 }
 
+// ---- steering controller -------------------------------------------------------------------
+
+// steerCtl holds one handler of a steered try block at its FIRST command (after the `cmd h 0`
+// event has been recorded, before the command returns) until it has seen the fate of the other
+// handler: the event `cmd w 0` (modes s, f), `done w` or a refused handler submission `hrej` of
+// the same try.  The model says that this must happen without the held handler moving
+// (Props/C16.stall_free), so the controller waits generously; if nothing happens it records
+// `stall w` and lets the held handler go.  Nothing is ever concluded from "did not happen within
+// t" except through that explicit event.
+type steerCtl struct {
+	mu      sync.Mutex
+	c       *Case
+	rec     *recorder
+	started map[int]bool   // cmd t 0 recorded
+	closed  map[int]bool   // done t recorded
+	body    map[int]string // task id of a try body -> ok | fail, once its close was recorded
+	rejTry  map[int]bool   // try k: a handler submission was refused
+	changed chan struct{}  // closed and replaced whenever something above changes
+	open    bool           // end of case: nothing is held any more
+}
+
+func newSteerCtl(c *Case, rec *recorder) *steerCtl {
+	return &steerCtl{c: c, rec: rec, started: map[int]bool{}, closed: map[int]bool{}, body: map[int]string{},
+		rejTry: map[int]bool{}, changed: make(chan struct{})}
+}
+
+func (s *steerCtl) bump() {
+	close(s.changed)
+	s.changed = make(chan struct{})
+}
+
+// note is called right AFTER the corresponding event has been recorded.
+func (s *steerCtl) noteStart(t int) {
+	s.mu.Lock()
+	s.started[t] = true
+	s.bump()
+	s.mu.Unlock()
+}
+
+func (s *steerCtl) noteDone(t int, res string) {
+	if t < 0 || t >= len(s.c.Tasks) {
+		return
+	}
+	s.mu.Lock()
+	s.closed[t] = true
+	if s.c.Tasks[t].Role == RoleTBody {
+		s.body[t] = res
+	}
+	s.bump()
+	s.mu.Unlock()
+}
+
+func (s *steerCtl) noteRej(h int) {
+	if h < 0 || h >= len(s.c.Tasks) {
+		return
+	}
+	s.mu.Lock()
+	s.rejTry[s.c.Tasks[h].K] = true
+	s.bump()
+	s.mu.Unlock()
+}
+
+func (s *steerCtl) releaseAll() {
+	s.mu.Lock()
+	s.open = true
+	s.bump()
+	s.mu.Unlock()
+}
+
+// stallsSeen counts the stalls recorded by this worker process.  The first one is waited for
+// generously; once a worker has seen a stall (the property is already violated on that case)
+// later waits are short, so that a tree on which every steered case stalls is reported in
+// bounded time.  On a tree that never stalls nothing changes.
+var stallsSeen int32
+
+func stallWait() time.Duration {
+	if atomic.LoadInt32(&stallsSeen) > 0 {
+		return stallShort
+	}
+	return stallWatchdog
+}
+
+// hold is called by the first command of task h (any probe kind) after its `cmd` event.
+func (s *steerCtl) hold(h int) {
+	if len(s.c.Steer) == 0 || h < 0 || h >= len(s.c.Tasks) {
+		return
+	}
+	t := s.c.Tasks[h]
+	if t.Role != RoleHSucc && t.Role != RoleHFail && t.Role != RoleHFin {
+		return
+	}
+	mode, ok := s.c.Steer[t.K]
+	if !ok {
+		return
+	}
+	y := s.c.Tries[t.K]
+	untilDone := mode == 'S' || mode == 'F'
+	deadline := time.NewTimer(stallWait())
+	defer deadline.Stop()
+	for {
+		s.mu.Lock()
+		target := NoTask
+		switch {
+		case t.Role == RoleHFin && (mode == 'f' || mode == 'F'):
+			// the handler selected by the recorded close of the body
+			switch s.body[y.Body] {
+			case "ok":
+				target = y.Succ
+			case "fail":
+				target = y.Fail
+			}
+		case t.Role != RoleHFin && (mode == 's' || mode == 'S'):
+			target = y.Fin
+		}
+		seen := target == NoTask || s.open || s.closed[target] || s.rejTry[t.K] || (!untilDone && s.started[target])
+		ch := s.changed
+		s.mu.Unlock()
+		if seen {
+			return
+		}
+		select {
+		case <-ch:
+		case <-deadline.C:
+			atomic.AddInt32(&stallsSeen, 1)
+			s.rec.emit("stall %d", target)
+			return
+		}
+	}
+}
+
+// ---- recording wrapper around the PipRunner service ----------------------------------------
+
+// recRunner records the outcome of the handler submissions of pip:try (Name finally / fail /
+// success): `hacc h` when Runner.Run returned nil, `hrej h` when it returned an error.  Every
+// other submission passes through unrecorded (pip:run and the try body are bracketed by the
+// probe commands, top-level tasks by the main thread).
+type recRunner struct {
+	inner pipservices.Runner
+	r     *run
+}
+
+func (w *recRunner) Run(pip pipservices.Pip) error {
+	err := w.inner.Run(pip)
+	if (pip.Name == "finally" || pip.Name == "fail" || pip.Name == "success") && pip.Namespaces != nil {
+		full := namespaces.NewSubNamespaces(pip.Namespaces, pipservices.NamasepacesParams{Task: pip.Name}).Task()
+		h := w.r.c.taskOfName(full)
+		if err != nil {
+			w.r.rec.emit("hrej %d", h)
+			w.r.steer.noteRej(h)
+		} else {
+			w.r.rec.emit("hacc %d", h)
+		}
+	}
+	return err
+}
+
 // ---- one case ------------------------------------------------------------------------------
 
 type run struct {
 	c     *Case
 	rec   *recorder
 	gates *gateCtl
+	steer *steerCtl
 }
 
 // taskSID recognises the scope the runner executes a task in: an unnamed child of the task
@@ -213,7 +378,9 @@ func (r *run) onClose(res string) app.EventCallback {
 				return
 			}
 			if m := taskSID.FindStringSubmatch(scp.SID()); m != nil {
-				r.rec.emit("done %d %s", r.c.taskOfName(m[1]), res)
+				id := r.c.taskOfName(m[1])
+				r.rec.emit("done %d %s", id, res)
+				r.steer.noteDone(id, res)
 			}
 		}); p {
 			r.rec.emit("panic")
@@ -239,6 +406,10 @@ func (r *run) probe(kind byte) func(a app.App, ctx app.IOContext) error {
 		t, _ := strconv.Atoi(deps.T)
 		i, _ := strconv.Atoi(deps.I)
 		r.rec.emit("cmd %d %d", t, i)
+		if i == 0 {
+			r.steer.noteStart(t)
+			r.steer.hold(t)
+		}
 		switch kind {
 		case 'g':
 			r.gates.pass(t, i)
@@ -266,9 +437,20 @@ func (r *run) probe(kind byte) func(a app.App, ctx app.IOContext) error {
 }
 
 // newApp assembles the application exactly like /repo/app/modules/pipelinem/main_test.go.
-func newApp() (*goatapp.MockupApp, error) {
+func newApp(r *run) (*goatapp.MockupApp, error) {
 	mapp, err := goatapp.NewMockupApp(goatapp.Params{})
 	if err != nil {
+		return nil, err
+	}
+	// a (non-default) factory registered first wins over the module's default factory: the real
+	// runner, wrapped by the recorder of handler submissions
+	if err = mapp.DependencyProvider().AddFactory(pipservices.RunnerService, func(dp app.DependencyProvider) (interface{}, error) {
+		inner, ferr := runner.Factory(dp)
+		if ferr != nil {
+			return nil, ferr
+		}
+		return pipservices.Runner(&recRunner{inner: inner.(pipservices.Runner), r: r}), nil
+	}); err != nil {
 		return nil, err
 	}
 	bs := bootstrap.NewBootstrap(mapp)
@@ -285,7 +467,7 @@ func newApp() (*goatapp.MockupApp, error) {
 
 // execute runs the case; every event goes to r.rec.
 func (r *run) execute() {
-	mapp, err := newApp()
+	mapp, err := newApp(r)
 	if err != nil {
 		r.rec.emit("panic")
 		return
@@ -312,6 +494,7 @@ func (r *run) execute() {
 
 	go r.gates.loop()
 	defer r.gates.releaseAll()
+	defer r.steer.releaseAll()
 
 	// pauses of the main thread between submissions come from their own stream so that the
 	// controller (another goroutine) keeps a deterministic one
@@ -424,9 +607,11 @@ func driveCase(c *Case, w io.Writer, header bool) {
 	if header {
 		c.writeHeader(w)
 	}
-	r := &run{c: c, rec: &recorder{out: w}, gates: newGateCtl(c.Seed, c.Hold)}
+	rec := &recorder{out: w}
+	r := &run{c: c, rec: rec, gates: newGateCtl(c.Seed, c.Hold), steer: newSteerCtl(c, rec)}
 	if p, _ := hx.Guard(r.execute); p {
 		r.gates.releaseAll()
+		r.steer.releaseAll()
 		r.rec.emit("panic")
 	}
 	r.rec.close()
